@@ -151,11 +151,7 @@ inline Result exec_c06(const Plan& plan)
     C06 c{fs.drv, &sh, fs.msg};
     c.res = &res;
     c.fp = &fp;
-    {
-        std::istringstream ks(plan.get("known"));
-        std::string t;
-        while(std::getline(ks, t, ',')) c.known.insert(t);
-    }
+    c.known = known_set(plan);
     c.group_view = (int)plan.geti("group_view", -1);
     c.where = std::string("schema ") + sh.name + " msg " + std::to_string(fs.msg) + " tree " + std::to_string(fs.tree_seed) + (c.group_view >= 0 ? " group-view " + std::to_string(c.group_view) : "");
     std::vector<u8> base = f.bytes;
